@@ -63,11 +63,15 @@ def cpp_type(schema: Schema, t) -> str:
     raise ValueError(t)
 
 
-def harness_source(schema: Schema) -> str:
-    """C++ TU with extern "C" enc(args, out) -> nbytes and dec(in, n, out_area) -> area bytes for the top struct."""
-    out = ['#include <cstdint>', '#include <cstring>', '#include <cmath>', '#include <limits>', '#include "fcp.h"', 'using namespace fcp;',
-           'struct Rd { const unsigned char* p; template<class X> X get() { X x; std::memcpy(&x, p, sizeof x); p += sizeof x; return x; } };',
-           'struct Wr { unsigned char* p; template<class X> void put(X x) { std::memcpy(p, &x, sizeof x); p += sizeof x; } };']
+def _prelude(includes=()):
+    return ['#include <cstdint>', '#include <cstring>', '#include <cmath>', '#include <limits>', '#include <new>', '#include "fcp.h"'] + list(includes) + [
+        'using namespace fcp;',
+        'struct Rd { const unsigned char* p; template<class X> X get() { X x; std::memcpy(&x, p, sizeof x); p += sizeof x; return x; } };',
+        'struct Wr { unsigned char* p; template<class X> void put(X x) { std::memcpy(p, &x, sizeof x); p += sizeof x; } };']
+
+
+def _builders(schema: Schema, out: list):
+    """Appends bld<k>(Rd&) / dmp<k>(const T&, Wr&) for every type asked for; returns build(t) -> (bld, dmp)."""
     n = [0]
     builders = {}
 
@@ -131,6 +135,13 @@ def harness_source(schema: Schema) -> str:
         out.append(d)
         return builders[key]
 
+    return build
+
+
+def harness_source(schema: Schema) -> str:
+    """C++ TU with extern "C" enc(args, out) -> nbytes and dec(in, n, out_area) -> area bytes for the top struct."""
+    out = _prelude()
+    build = _builders(schema, out)
     top = ("struct", schema.top)
     bname, dname = build(top)
     out.append(f'extern "C" unsigned long enc(const unsigned char* args, unsigned char* out) {{ Rd r{{args}}; '
@@ -139,6 +150,31 @@ def harness_source(schema: Schema) -> str:
     out.append(f'extern "C" unsigned long dec(const unsigned char* in, unsigned long n, unsigned char* area) {{ '
                f'Buffer buf{{in, in + n}}; {schema.top} v = {schema.top}::Decode(buf); Wr w{{area}}; {dname}(v, w); '
                f'return (unsigned long)(w.p - area); }}')
+    return "\n".join(out) + "\n"
+
+
+FRAME_BYTES = 15     # bus[4] sid(le16) dlc data[8]
+
+
+def can_harness_source(schema: Schema, structs: list) -> str:
+    """TU for the CAN wrapper (can_static_schema.h): can_enc(name, frame15) -> 0/1 and can_dec(frame15, name_out) -> -1 | len,
+    plus mk_<S>(args, S*) / dump_<S>(const S*, area) which the native models of S::FromJson / S::DecodeJson call: JSON
+    itself is never executed, a null json is handed through."""
+    out = _prelude(['#include "can.h"', '#include "can_static_schema.h"'])
+    build = _builders(schema, out)
+    for sn in structs:
+        b, d = build(("struct", sn))
+        out.append(f'extern "C" void mk_{sn}(const unsigned char* args, {sn}* out) {{ Rd r{{args}}; new (out) {sn}({b}(r)); }}')
+        out.append(f'extern "C" unsigned long dump_{sn}(const {sn}* x, unsigned char* area) {{ Wr w{{area}}; {d}(*x, w); '
+                   f'return (unsigned long)(w.p - area); }}')
+    out.append('extern "C" int can_enc(const char* name, unsigned char* out) { fcp::can::CanStaticSchema s; nlohmann::json j; '
+               'auto f = s.Encode(std::string(name), j); if (!f.has_value()) return 0; '
+               'std::memcpy(out, f->bus.data(), 4); std::memcpy(out + 4, &f->sid, 2); out[6] = f->dlc; '
+               'std::memcpy(out + 7, f->data.data(), 8); return 1; }')
+    out.append('extern "C" long can_dec(const unsigned char* in, char* name_out) { fcp::can::frame_t f; '
+               'std::memcpy(f.bus.data(), in, 4); std::memcpy(&f.sid, in + 4, 2); f.dlc = in[6]; std::memcpy(f.data.data(), in + 7, 8); '
+               'fcp::can::CanStaticSchema s; auto r = s.Decode(f); if (!r.has_value()) return -1; '
+               'for (unsigned long i = 0; i < r->first.size(); i++) name_out[i] = r->first[i]; return (long)r->first.size(); }')
     return "\n".join(out) + "\n"
 
 
